@@ -38,6 +38,8 @@ class Builder(Contract):
         if self.name == 'normalize':
             out.append(('row-normalised-equals-counts-over-row-totals', bool(np.allclose(Td, C / C.sum(axis=1)[:, None], rtol=1e-12, atol=1e-15))))
             out.append(('counts-returned-with-prior', bool(np.allclose(dense(Cout), C))))
+        if self.name == 'mle':
+            out.append(('counts-returned-equal-the-input-counts', bool(np.allclose(dense(Cout), C))))
         if self.name == 'transpose':
             S = C + C.T
             out.append(('symmetrised-then-normalised', bool(np.allclose(Td, S / S.sum(axis=1)[:, None], rtol=1e-12, atol=1e-15))))
